@@ -356,12 +356,19 @@ impl Variant {
         if round_right.is_approximately_zero()? {
             Err(VariantError::DivisionByZero)
         } else {
-            match round_left {
-                // the rounded operands are numbers; anything that does not fit an integer is too big
-                Self::VInteger(i_left) => match round_right {
-                    Self::VInteger(i_right) => Ok(Self::VInteger(i_left % i_right)),
-                    _ => Err(VariantError::Overflow),
-                },
+            match (round_left, round_right) {
+                (Self::VInteger(i_left), Self::VInteger(i_right)) => {
+                    Ok(Self::VInteger(i_left % i_right))
+                }
+                // a LONG operand makes the result a LONG
+                (Self::VInteger(i_left), Self::VLong(l_right)) => {
+                    Ok(Self::VLong(i_left as i64 % l_right))
+                }
+                (Self::VLong(l_left), Self::VInteger(i_right)) => {
+                    Ok(Self::VLong(l_left % i_right as i64))
+                }
+                (Self::VLong(l_left), Self::VLong(l_right)) => Ok(Self::VLong(l_left % l_right)),
+                // the rounded operands are numbers; anything that does not fit a long is too big
                 _ => Err(VariantError::Overflow),
             }
         }
